@@ -72,6 +72,7 @@ class SimCheck(Check):
     thorough_n = 6000
     want_pos = False
     drive = None
+    allow_tolerant = True      # scenarios in which a callback's exception escapes under a driver that keeps stepping
 
     def tweak(self, r, scn):
         """property-specific adjustment of a generated scenario"""
@@ -86,6 +87,10 @@ class SimCheck(Check):
             scn["label"] = f"gen/{seed}/{i}"
             r = random.Random(s)
             scn = self.tweak(r, scn)
+            if not self.allow_tolerant or scn["drive"]["mode"] != "steps" or scn["drive"].get("untilDone"):
+                scn.pop("tolerant", None)
+                if self.prop != "C06":
+                    scn.pop("escapeAt", None)
             yield scn
 
     def behaviour(self, case):
